@@ -4,7 +4,7 @@ CONSTANTS
   IonChoices <- Ch_t
   MaxIons = 3
   MaxHist = 1
-  ScaleFactors <- S_t
+  ScaleFactors <- S_q
   DHPoints <- NoPoints
 INVARIANT Tracks
 INVARIANT WarnClassesSound
